@@ -105,9 +105,12 @@ impl<T: ?Sized> Mutex<T> {
                             self.unlock();
                         }
                     }
-                    // we ignore the cancel, just to wait the actual event
+                    // the cancel is ignored, but our queue entry has just been given up (its
+                    // release flag is set: whoever pops it unlocks on its behalf), so parking on
+                    // it again would either never be woken or be woken *and* unlocked for:
+                    // take part again from the start with a fresh blocker
                     if b_ignore {
-                        continue;
+                        return self.lock();
                     }
 
                     // now we can safely go with the cancel panic
